@@ -343,6 +343,9 @@ func (g *G) Value(t reflect.Type, p P, depth int) reflect.Value {
 		}
 		if g.budget > 0 {
 			small := int64(2)
+			if depth <= 4 {
+				small = 4 // IE containers: more than a couple of IEs per message
+			}
 			if depth > 6 {
 				small = 0
 			}
